@@ -151,14 +151,11 @@ def oracle(c, r, p):
     rcond, rpg = r["rcond"], r["rpg"]
     # ---- info = n+1  <=>  rcond < eps ; solution and bounds still returned
     exp_info = n + 1 if rcond < eps else 0
-    if c["trans"] == 2 and not cx and info not in (exp_info,):
-        st["conj_real_info"] = info          # real CONJ: dgstrs rejects it (finding F3 of C07), info may be negative
-    if info != exp_info and not (c["trans"] == 2 and not cx):
+    if info != exp_info:
         fails.append(("info-nplus1", "info = %d but rcond = %r, eps = %r (expected info %d)" % (info, rcond, eps, exp_info)))
-    if not (c["trans"] == 2 and not cx):
-        X = r["X"]
-        if any(x != x for x in X) or any(x != x or x == -777 for x in r["ferr"] + r["berr"]):
-            fails.append(("solution-missing", "X/ferr/berr not produced although info = %d" % info))
+    X = r["X"]
+    if any(x != x for x in X) or any(x != x or x == -777 for x in r["ferr"] + r["berr"]):
+        fails.append(("solution-missing", "X/ferr/berr not produced although info = %d" % info))
     if rcond != rcond or rcond < 0:
         fails.append(("rcond-nan", "rcond = %r" % rcond))
         return fails, st
@@ -197,7 +194,7 @@ def oracle(c, r, p):
     # the norm the PROPERTY requires: 1-norm of the user's A for A X = B, infinity norm for the transposed system
     p_user = 1 if c["trans"] == 0 else "inf"
     p_AA = p_user if c["stype"] == 0 else (1 if p_user == "inf" else "inf")
-    check_rcond(rcond, p_AA, "pdgssvx(%s,%s)" % ("NC" if c["stype"] == 0 else "NR", TRANS_NAME[c["trans"]]))
+    check_rcond(rcond, p_AA, "p%sgssvx(%s,%s)" % (p, "NC" if c["stype"] == 0 else "NR", TRANS_NAME[c["trans"]]))
     # ?gscon called directly, every norm letter
     for letter, (an, rc, inf2) in sorted(r["direct"].items()):
         pl = 1 if letter in "1Oo" else "inf"
@@ -308,7 +305,7 @@ def compare_d(c, r, vals):
     n = c["n"]
     if list(map(tuple, vals["calls"])) != call_seq(r):
         dis.append("call sequence: model %s, pdgssvx %s" % (vals["calls"], call_seq(r)))
-    if "info" in vals and not (c["trans"] == 2):
+    if "info" in vals:
         if vals["info"] != r["info"]:
             dis.append("info: model %s, pdgssvx %s" % (vals["info"], r["info"]))
     if "gscon" in vals:
@@ -478,7 +475,8 @@ def eval_batch(ctx, p, exe, cases, tag, ienv=None):
                                                                      TRANS_NAME[c["trans"]], c["fact"], c["u"], msg),
                           {"kind": "ssvx", "prec": p, "case": c, "ienv": ienv, "failure": slug},
                           key={"class": slug, "arith": "complex" if ll.is_cx(p) else "real",
-                               "routine": ("?gscon" if slug.startswith("rcond") else "p?gssvx")})
+                               "routine": ("?gscon" if slug.startswith("rcond") else "p?gssvx"),
+                               "storage": "NC" if c["stype"] == 0 else "NR"})
         if p == "d" and c["id"] in model:
             dis = compare_d(c, r, model[c["id"]])
             if not dis:
@@ -513,7 +511,6 @@ def run(ctx):
         "theorems are in exact arithmetic (Q); the floating-point 'up to rounding' part is decided by the oracle with the stated slack",
         "sp_dtrsv itself is not modelled here (its recorded outputs are replayed); s/c/z: oracle only",
         "complex reciprocal pivot growth uses |re|+|im| (z_abs1), not the modulus",
-        "real CONJ: dgstrs rejects it (finding F3, property C07): info/solution clauses skipped for real CONJ, rcond still checked",
     ]
     ctx.coq_properties()
     lib, fl = ctx.build_lib("hooks")
@@ -526,10 +523,10 @@ def run(ctx):
             if f.endswith(".json"):
                 obj = json.load(open(os.path.join(cdir, f)))
                 replay(ctx, obj, quiet=True)
-    check_lacon_dense(ctx, exes["d"], lacon_dense_cases(ctx, 40 if q else 400))
+    check_lacon_dense(ctx, exes["d"], lacon_dense_cases(ctx, 80 if q else 600))
     small_ienv = "3,2,4,200,100,-50,-50,-30"
-    plan = [("d", 36 if q else 400, None), ("d", 18 if q else 200, small_ienv),
-            ("z", 8 if q else 80, None), ("s", 12 if q else 120, small_ienv), ("c", 6 if q else 60, None)]
+    plan = [("d", 60 if q else 400, None), ("d", 36 if q else 240, small_ienv),
+            ("z", 16 if q else 100, None), ("s", 24 if q else 160, small_ienv), ("c", 12 if q else 80, None)]
     for i, (p, cnt, ienv) in enumerate(plan):
         cases = gen_cases(ctx, p, cnt)
         for c in cases:
